@@ -427,7 +427,8 @@ func splitPeriod(mpd *m.MPD, a *asset, cfg *ResponseConfig, wTimes wrapTimes) (l
 			case segmentNumber:
 				as.SegmentTemplate.PresentationTimeOffset = pto
 				segDur := int(*as.SegmentTemplate.Duration)
-				startNr := uint32(pNr * periodDur * timeScale / segDur)
+				// Segment numbers count from the configured startNumber, as in the single-period MPD
+				startNr := uint32(pNr*periodDur*timeScale/segDur + cfg.getStartNr())
 				as.SegmentTemplate.StartNumber = Ptr(startNr)
 			case timeLineTime:
 				as.SegmentTemplate.PresentationTimeOffset = pto
